@@ -838,7 +838,7 @@ PLACEMENTS = ["inpkg", "stubspkg", "sibling", "api"]
 
 
 def shards(tier: str, seed: int) -> list[dict]:
-    return [{"count": 32 if tier == "quick" else 940} for _ in range(16)]
+    return [{"count": 64 if tier == "quick" else 940} for _ in range(16)]
 
 
 def run_shard(spec: dict, rec) -> None:  # noqa: ANN001
